@@ -22,6 +22,7 @@ RULE = ("typed Bool-rooted filters over the Django-supported scalar fragment: ar
 RULE += (" " + 'Added lanes: machine numbers; long in-lists under and/or/not; same-field chains; integer expressions vs decimals; fixed-point column m (DecimalField(5,2)) with literals beyond its precision.')
 RULE += (" " + 'Round-10 lanes: numeric-spelling twins, grouping grid, bracket-string groups (as in C01).')
 RULE += (" " + 'Round-13 lane: NULLable column of every kind (GUID, date, string, integer, date-time, boolean) x eq / ne both operand orders, in, null tests x 7 negation wrappers.')
+RULE += (" " + 'Round 14: in-lists holding a null literal under the negation wrappers.')
 ASSUMPTIONS = ["Django 6.1 on in-memory SQLite, USE_TZ=False, harness app vp_djapp",
                "not in the fragment (refused by the backend, judged by C12): unary minus on "
                "non-literals, bare boolean columns, geo.* (GeoDjango cannot load: no GDAL)",
